@@ -59,7 +59,10 @@ def handle (op : String) (j : Json) : Except String Json := do
     let aon := boolFieldD j "aon" false
     let r := condChunk p c e ap aon
     let model := match r with | none => Json.null | some t => SL t.lines
-    pure (Json.mkObj [("model", model), ("failed", clauses [])])
+    let failed := if !(hasField j "impl") then [] else
+      let implv : Option (List Str) := (do (← impl.getArr?).toList.mapM str?).toOption
+      if implv = Spec.condChunkSpec p c e ap aon then [] else ["cond_chunk"]
+    pure (Json.mkObj [("model", model), ("failed", clauses failed)])
   | "ind.to_list" | "ind.to_str" =>
     let i ← indentizer (← field j "ind")
     let c ← content (← field j "content")
